@@ -576,12 +576,14 @@ pub const F9_STMTS: [&str; 40] = [
     "r = arr[2];", "arr[X]++;", "arr[X] += a;", "s = 0x1234;", "s++;", "s--;", "s += a;", "s += t;", "s <<= 1;", "s >>= 1;", "r = s >> 8;", "r = s;", "if (s == t) r = 1;",
 ];
 
-pub const F9_STMTS2: [&str; 36] = [
+pub const F9_STMTS2: [&str; 44] = [
     "p++;", "p--;", "++p;", "--p;", "p = arr;", "p += 2;",
     "sarr[X] = s;", "s = sarr[X];", "sarr[Y] = s;", "s = sarr[Y];", "sarr[1] = t;", "sarr[X]++;", "s = sarr[Y] + 1;", "sarr[Y] += a;",
     "t = s;", "s = t + 1;", "s = a;", "s -= t;", "s &= 0xff;", "s |= t;", "if (s < t) r = 1; else r = 2;", "if (s) r = 1;", "r = g(a);", "h(a, b);", "load(a);", "store(a);", "a = arr[X] + b;", "arr[X] = arr[Y];",
     "sarr[Y] <<= 1;", "sarr[X] >>= 1;", "sarr[X] <<= 1;", "X = a; a = 3; X = a;", "b = a; a = Y; r = a;", "Y = s; s = 3; Y = s;",
     "p = arr; r = p[Y];", "p = arr; p[Y] = a;",
+    // a register compared with a variable (CPX / CPY read their operand), registers loaded and stored directly
+    "if (X == a) r = 1; else r = 2;", "if (Y < b) r = 1; else r = 2;", "if (X != arr[1]) r = 3;", "if (Y >= a) r = 4;", "r = X == a;", "X = arr[1]; arr[2] = X;", "Y = b; b = Y;", "if (a == X) r = 1;",
 ];
 
 /// (name, extra option, declaration text)
